@@ -27,6 +27,8 @@ tuning curves of `OpdaModel/QuadNoisy.lean` and the loop of `OpdaModel/QuadTrap.
                                                             of every round)  |  `fail` after 30 rounds (IntegrationError)
                                                             |  `capped` when the harness's budget `cap < 30` of rounds is
                                                             exhausted (2^cap integrand evaluations)   (atol ∈ {-, hex})
+    quad.navgrep      (same arguments)                   → the same loop on the integrand without `1[y>0]`, integrated from
+                                                            `lo` (value `lo + T`): the repaired algorithm proposed for F4
 -/
 namespace Opda.Drv.Quad
 open Opda.Wire Opda.Quad
@@ -100,7 +102,7 @@ def handleNoisy (fn : String) (args : List String) : Option String := do
         let r := Opda.NoisyF.ppf P d lv
         s!"{hexOfFloat r.1} {hexOfFloat r.2}"))
     | _ => none
-  | "navg" =>
+  | "navg" | "navgrep" =>
     match rest with
     | mn :: atol :: cap :: rest =>
       let mn ← parseOptBool? mn
@@ -108,10 +110,12 @@ def handleNoisy (fn : String) (args : List String) : Option String := do
       let cap ← cap.toNat?
       let cap := if cap > 30 then 30 else cap
       let (ns, _) ← takeList parseFloat? rest
-      match Opda.Noisy.avgRunCapped P d ns mn atol cap with
+      let rep := fn == "navgrep"
+      match (if rep then Opda.Noisy.avgRunCappedRep P d ns mn atol cap else Opda.Noisy.avgRunCapped P d ns mn atol cap) with
       | none => some (if cap < 30 then "capped" else "fail")
       | some (i, ts, errs) =>
-        let tl := Opda.TrapLoop.tail P.n (Opda.Noisy.intLo P d) (Opda.Noisy.intHi P d)
+        let tl := if rep then Opda.Noisy.intLo P d
+                  else Opda.TrapLoop.tail P.n (Opda.Noisy.intLo P d) (Opda.Noisy.intHi P d)
         some (s!"{i} " ++ joinWith " " (ts.map fun t => hexOfFloat (tl + t)) ++ " " ++ joinWith " " (errs.map hexOfFloat))
     | _ => none
   | _ => none
